@@ -1,9 +1,13 @@
 """C08 -- self-replacement is a no-op and element substitutions are reversible.
 
 Deductive part: atoms.find_unchanged_atom_pairs(P, P) is the identity map (both loops cut at invariants, the inner one left by
-`break`), for patterns of any size without coincident same-element atoms.  With an identity map Atoms.extend appends no atom (C11) and the
-deletion set of every match is empty (C07), so nothing is added or removed.  A -> B -> A reversibility and 'second search finds none' are
-relations between runs of the search and are BOUNDED (bounded/C08.py).
+`break`), for patterns of any size without coincident same-element atoms.  With that map as a hypothesis the replacement block of
+replace_pattern_in_structure (`new_structure = structure.copy()` ... bulk delete) is executed for ANY number of matches against the contracts of
+extend_types / extend / __delitem__ (contracts/C04._frame in `self` mode, contracts/atoms_contracts.py): every pattern atom is mapped onto its
+matched atom, extend appends nothing, nothing is marked for deletion, the final delete has an empty index list (C10 corollary: changes nothing);
+hence the result has the same atoms in the same order with the same positions, charges, groups and elements, and every term array with its
+types and extra rows is unchanged (pattern without terms of its own; a pattern WITH terms adds them, which is C06).  A -> B -> A reversibility
+and 'second search finds none' are relations between runs of the search and are BOUNDED (bounded/C08.py).
 """
 import z3
 
@@ -12,9 +16,10 @@ from pyvc.interp import FuncSpec, LoopSpec
 from pyvc import models_py
 
 META = {
-    'level': 'other',
-    'explanation': "identity of the shared-atom map for identical patterns proved by loop invariants; the no-op conclusion composes it with "
-                   "the contracts of C07/C10/C11; reversibility clauses are bounded (they rest on completeness of the search)",
+    'level': 'proof',
+    'explanation': "identity of the shared-atom map for identical patterns proved by loop invariants; the no-op conclusion proved for any number of "
+                   "matches by executing the replacement block against the contracts of extend / __delitem__ / the search; reversibility clauses "
+                   "are bounded (they rest on completeness of the search)",
     'trusted_base': ["norm(v) is an uninterpreted function with norm(0) = 0; 0 < max_delta", "z3 soundness", "pyvc symbolic interpreter"],
 }
 REL = 'mofun/atoms.py'
@@ -102,6 +107,10 @@ def build(S):
         if len(spec.seen_loops) != 2:
             raise OutOfSubset("both loops of %s must be cut at their invariants" % FN)
     S.guarded(FN, run)
+    from contracts import C04
+    S.function('mofun/mofun.py', 'replace_pattern_in_structure')
+    C04.prove_self_replacement(S)
     S.clause('self-replacement: shared-atom map is the identity', 'PROVED (loop invariants, break handled)')
-    S.clause('hence no atom added / removed, positions, charges, groups unchanged', 'follows from C07/C10/C11 contracts; also BOUNDED on real structures')
-    S.clause('A -> B -> A restores the structure; second search finds none', 'BOUNDED')
+    S.clause('hence, for any number of matches: atom count, positions, elements, charges, groups and all term arrays unchanged (pattern without terms of its own)',
+             'PROVED (replacement block, modular over the contracts of extend / __delitem__ / the search)')
+    S.clause('A -> B -> A restores the structure; second search finds none; real MOF files', 'BOUNDED')
